@@ -2,10 +2,10 @@
  * able to address them.   usage: drive_mix <workdir> <case-file>
  *
  * One case per input line, run in its own child process (the single-file interfaces keep static state):
- *   <id> sds <writer> <pre> <edits> <n> { <rank> <d0|uN> .. <nt> <hex> <meta> }*n      writer: dfsd | sd | nc
+ *   <id> sds <writer> <pre> <edits> <pad> <n> { <rank> <d0|uN> .. <nt> <hex> <meta> }*n      writer: dfsd | sd | nc
  *        pre: 8-bit images written into the file first; edits: "-" or indices of datasets whose attributes a later
  *        SD session changes; meta: "-" or s<dim>=<hex>,t=<label>;<unit>;<format>,r=<max>;<min>
- *   <id> img <writer> <pre> <edits> <ril> <n> { <x> <y> <ncomp> <nt> <il> <comp> <hex> <palhex|-> }*n     writer: df | gr
+ *   <id> img <writer> <pre> <edits> <pad> <ril> <n> { <x> <y> <ncomp> <nt> <il> <comp> <hex> <palhex|-> }*n     writer: df | gr
  *   <id> pal <n> <hex768>*n                                         DFPaddpal
  *   <id> ann <writer> <n> { <fl|fd|ol|od> <tag> <ref> <hex> }*n     writer: dfan | an
  *   <id> raw <views> <ril> <n> { <tag> <ref> <hex|-> }*n            Hputelement of model-made records
@@ -23,6 +23,7 @@
 #include "nc_priv.h"
 
 static const char *ID;      /* case id */
+static int         PAD;     /* how much larger than the object the reader's array is: 2 bits per dimension, bits 12-13 = call */
 static char        FN[600]; /* file of the current case */
 
 static int unhex(const char *s, unsigned char *out)
@@ -57,6 +58,8 @@ typedef struct {
     unsigned char *scale[8];            /* dimension scales (NULL = none) */
     int   hasstrs; char strs[3][64];    /* label, unit, format of the data */
     int   hasrange; unsigned char rmax[8], rmin[8];
+    int   hasdstrs[8]; char dstrs[8][3][64];   /* label, unit, format of a dimension */
+    char  dname[8][64];                       /* user name of a dimension ("" = none) */
 } ds_t;
 
 static void unhexs(const char *h, char *out) { if (h[0] == '_') { out[0] = 0; return; } int n = unhex(h, (unsigned char *)out); out[n] = 0; }
@@ -74,7 +77,8 @@ static void parse_ds(ds_t *d)
     char *h     = next();
     d->data     = malloc(strlen(h) / 2 + 8);
     d->nbytes   = unhex(h, d->data);
-    /* metadata token: "-" or items separated by ',':  s<dim>=<hex>  t=<label>;<unit>;<format>  r=<max>;<min> */
+    /* metadata token: "-" or items separated by ',':  s<dim>=<hex>  t=<label>;<unit>;<format>  r=<max>;<min>
+       d<dim>=<label>;<unit>;<format>  n<dim>=<name> */
     char *m = next();
     if (m[0] != '-') {
         char *copy = strdup(m), *save = NULL;
@@ -90,6 +94,17 @@ static void parse_ds(ds_t *d)
                 char *c = strchr(b, ';'); *c++ = 0;
                 d->hasstrs = 1;
                 unhexs(a, d->strs[0]); unhexs(b, d->strs[1]); unhexs(c, d->strs[2]);
+            }
+            else if (it[0] == 'd') {
+                int   dim = atoi(it + 1);
+                char *a = strchr(it, '=') + 1, *b = strchr(a, ';'); *b++ = 0;
+                char *c = strchr(b, ';'); *c++ = 0;
+                d->hasdstrs[dim] = 1;
+                unhexs(a, d->dstrs[dim][0]); unhexs(b, d->dstrs[dim][1]); unhexs(c, d->dstrs[dim][2]);
+            }
+            else if (it[0] == 'n') {
+                int dim = atoi(it + 1);
+                unhexs(strchr(it, '=') + 1, d->dname[dim]);
             }
             else if (it[0] == 'r') {
                 char *a = it + 2, *b = strchr(a, ';'); *b++ = 0;
@@ -142,6 +157,8 @@ static void wr_sds(const char *writer, int n, int pre, const char *edits)
             for (int i = 0; i < ds[k].rank; i++) if (ds[k].scale[i]) any = 1;
             for (int i = 0; any && i < ds[k].rank; i++)    /* NULL: this dimension has no scale */
                 if (DFSDsetdimscale(i + 1, ds[k].dims[i], ds[k].scale[i]) == FAIL) r2 = -1;
+            for (int i = 0; i < ds[k].rank; i++)
+                if (ds[k].hasdstrs[i] && DFSDsetdimstrs(i + 1, ds[k].dstrs[i][0], ds[k].dstrs[i][1], ds[k].dstrs[i][2]) == FAIL) r2 = -1;
             if (ds[k].hasstrs && DFSDsetdatastrs(ds[k].strs[0], ds[k].strs[1], ds[k].strs[2], "") == FAIL) r2 = -1;
             if (ds[k].hasrange && DFSDsetrange(ds[k].rmax, ds[k].rmin) == FAIL) r2 = -1;
             int r3 = DFSDadddata(FN, ds[k].rank, ds[k].dims, ds[k].data);
@@ -159,7 +176,11 @@ static void wr_sds(const char *writer, int n, int pre, const char *edits)
             int32 s  = SDcreate(sd, name, ds[k].nt, ds[k].rank, dims);
             int   r1 = SDwritedata(s, start, NULL, edges, ds[k].data);
             for (int i = 0; i < ds[k].rank; i++)
+                if (ds[k].dname[i][0] && SDsetdimname(SDgetdimid(s, i), ds[k].dname[i]) == FAIL) r1 = -1;
+            for (int i = 0; i < ds[k].rank; i++)
                 if (ds[k].scale[i] && SDsetdimscale(SDgetdimid(s, i), ds[k].dims[i], ds[k].nt, ds[k].scale[i]) == FAIL) r1 = -1;
+            for (int i = 0; i < ds[k].rank; i++)
+                if (ds[k].hasdstrs[i] && SDsetdimstrs(SDgetdimid(s, i), ds[k].dstrs[i][0], ds[k].dstrs[i][1], ds[k].dstrs[i][2]) == FAIL) r1 = -1;
             if (ds[k].hasstrs && SDsetdatastrs(s, ds[k].strs[0], ds[k].strs[1], ds[k].strs[2], NULL) == FAIL) r1 = -1;
             if (ds[k].hasrange && SDsetrange(s, ds[k].rmax, ds[k].rmin) == FAIL) r1 = -1;
             int   r2 = SDendaccess(s);
@@ -237,6 +258,12 @@ static void rd_sds_dfsd(const char *fn)
             if (DFSDgetdimscale(i + 1, dims[i], sc) == FAIL) printf(" none\n"); else { phex(sc, sb); printf("\n"); }
             free(sc);
         }
+        for (int i = 0; i < rank; i++) {
+            char dl[300] = "", du[300] = "", df[300] = "";
+            printf("%s dfsdmeta %d dstrs %d", ID, k, i);
+            if (DFSDgetdimstrs(i + 1, dl, du, df) == FAIL) printf(" fail\n");
+            else { phex((unsigned char *)dl, strlen(dl)); phex((unsigned char *)du, strlen(du)); phex((unsigned char *)df, strlen(df)); printf("\n"); }
+        }
         char l[300] = "", u[300] = "", f[300] = "", c[300] = "";
         if (DFSDgetdatastrs(l, u, f, c) != FAIL) {
             printf("%s dfsdmeta %d strs", ID, k);
@@ -246,6 +273,53 @@ static void rd_sds_dfsd(const char *fn)
         unsigned char mx[16], mn[16];
         printf("%s dfsdmeta %d range", ID, k);
         if (DFSDgetrange(mx, mn) == FAIL) printf(" none\n"); else { phex(mx, ntsize(nt)); phex(mn, ntsize(nt)); printf("\n"); }
+    }
+}
+
+/* the same datasets read into a caller's array that is larger than the dataset (PAD): the values must land at the
+ * array's own strides and nothing else of the array may change */
+static void rd_sds_dfsd_pad(const char *fn)
+{
+    int n = DFSDndatasets((char *)fn);
+    DFSDrestart();
+    for (int k = 0; k < n + 2; k++) {
+        int   rank;
+        int32 dims[16], adims[16], one[16], nt = 0;
+        if (DFSDgetdims(fn, &rank, dims, 16) == FAIL) break;
+        DFSDgetNT(&nt);
+        long sz = ntsize(nt), ne = 1, na = 1;
+        for (int i = 0; i < rank; i++) {
+            adims[i] = dims[i] + (i < 6 ? ((PAD >> (2 * i)) & 3) : 0);
+            one[i]   = 1;
+            ne *= dims[i];
+            na *= adims[i];
+        }
+        unsigned char *big = malloc(na * sz + 1), *out = malloc(ne * sz + 1);
+        memset(big, 0xA5, na * sz);
+        int mode = (PAD >> 12) & 3, r;
+        if (mode == 1) r = DFSDgetslice(fn, one, dims, big, adims);
+        else if (mode == 2) r = DFSDreadslab(fn, one, dims, one, big, adims);
+        else r = DFSDgetdata(fn, rank, adims, big);
+        if (mode == 1 || mode == 2) {       /* consume the dataset so that the next DFSDgetdims moves on */
+            unsigned char *tmp = malloc(ne * sz + 1);
+            DFSDgetdata(fn, rank, dims, tmp);
+            free(tmp);
+        }
+        /* pick the dataset out of the array at the array's strides; count array bytes outside it that changed */
+        unsigned char *mark = calloc(na * sz + 1, 1);
+        for (long e = 0; e < ne; e++) {
+            long rem = e, off = 0, mul = 1;
+            for (int i = rank - 1; i >= 0; i--) { off += (rem % dims[i]) * mul; mul *= adims[i]; rem /= dims[i]; }
+            memcpy(out + e * sz, big + off * sz, sz);
+            memset(mark + off * sz, 1, sz);
+        }
+        long touched = 0;
+        for (long b = 0; b < na * sz; b++) if (!mark[b] && big[b] != 0xA5) touched++;
+        printf("%s dfsdp %d %d", ID, k, rank);
+        for (int i = 0; i < rank; i++) printf(" %d", (int)dims[i]);
+        printf(" %d", (int)nt);
+        if (r == FAIL) printf(" fail\n"); else { phex(out, ne * sz); printf(touched ? " padbad\n" : " padok\n"); }
+        free(big); free(out); free(mark);
     }
 }
 
@@ -284,6 +358,18 @@ static void rd_sds_sd(const char *fn, const char *view)
                     unsigned char *sc = malloc(sb > 0 ? sb : 1);
                     if (SDgetdimscale(dimid, sc) == FAIL) printf(" fail\n"); else { phex(sc, sb); printf("\n"); }
                     free(sc);
+                }
+            }
+            for (int j = 0; j < rank; j++) {
+                int32 dimid = SDgetdimid(s, j), dsz = 0, dnt = 0, dna = 0;
+                char  dn[256] = "", dl[300] = "", du[300] = "", df[300] = "";
+                printf("%s sdmeta %d dstrs %d", ID, k, j);
+                if (dimid == FAIL || SDgetdimstrs(dimid, dl, du, df, 256) == FAIL) printf(" fail\n");
+                else { phex((unsigned char *)dl, strlen(dl)); phex((unsigned char *)du, strlen(du)); phex((unsigned char *)df, strlen(df)); printf("\n"); }
+                if (dimid != FAIL && SDdiminfo(dimid, dn, &dsz, &dnt, &dna) != FAIL) {
+                    printf("%s sdmeta %d dname %d", ID, k, j);
+                    phex((unsigned char *)dn, strlen(dn));
+                    printf("\n");
                 }
             }
             char l[300] = "", u[300] = "", f[300] = "", c[300] = "";
@@ -554,6 +640,30 @@ static void rd_img_dfr8(const char *fn)
             printf("\n");
         }
         free(buf);
+    }
+}
+
+static void rd_img_dfr8_pad(const char *fn)
+{
+    int n = DFR8nimages(fn);
+    DFR8restart();
+    for (int k = 0; k < n + 2; k++) {
+        int32 x, y;
+        int   ispal = 0;
+        if (DFR8getdims(fn, &x, &y, &ispal) == FAIL) break;
+        int32 bx = x + (PAD & 3), by = y + ((PAD >> 2) & 3);
+        unsigned char *big = malloc((long)bx * by + 1), *out = malloc((long)x * y + 1), pal[768];
+        memset(big, 0xA5, (long)bx * by);
+        int  r = DFR8getimage(fn, big, bx, by, pal);
+        long touched = 0;
+        for (long j = 0; j < by; j++)
+            for (long i = 0; i < bx; i++) {
+                if (j < y && i < x) out[j * x + i] = big[j * bx + i];
+                else if (big[j * bx + i] != 0xA5) touched++;
+            }
+        printf("%s dfr8p %d %d %d", ID, k, (int)x, (int)y);
+        if (r == FAIL) printf(" fail\n"); else { phex(out, (long)x * y); (void)touched; printf(" padok\n"); }   /* DFR8getimage uses the rest of the array as scratch: only the placement is compared */
+        free(big); free(out);
     }
 }
 
@@ -852,7 +962,7 @@ static void wr_raw(int n)
 static void sds_readers(const char *fn, const char *views, const char *dir)
 {
     char tmp[700];
-    if (strchr(views, 'd')) rd_sds_dfsd(fn);
+    if (strchr(views, 'd')) { rd_sds_dfsd(fn); rd_sds_dfsd_pad(fn); }
     if (strchr(views, 's')) rd_sds_sd(fn, "sd");
     if (strchr(views, 'n')) rd_sds_nc(fn);
     if (strchr(views, 'v')) rd_sds_vg(fn);
@@ -866,7 +976,7 @@ static void sds_readers(const char *fn, const char *views, const char *dir)
 static void img_readers(const char *fn, const char *views, const char *dir, int ril)
 {
     char tmp[700];
-    if (strchr(views, '8')) rd_img_dfr8(fn);
+    if (strchr(views, '8')) { rd_img_dfr8(fn); rd_img_dfr8_pad(fn); }
     if (strchr(views, '2')) rd_img_df24(fn, ril);
     if (strchr(views, 'G')) rd_img_gr(fn, "gr", ril);
     if (strchr(views, 'p')) rd_dfp(fn);
@@ -890,6 +1000,7 @@ static void run_case(const char *dir)
         char *w   = next();
         int   pre = (int)nextl();
         char *ed  = next();
+        PAD       = (int)nextl();
         int   n   = (int)nextl();
         wr_sds(w, n, pre, ed);
         sds_readers(FN, "dsnvg", dir);
@@ -899,6 +1010,7 @@ static void run_case(const char *dir)
         char *w   = next();
         int   pre = (int)nextl();
         char *ed  = next();
+        PAD       = (int)nextl();
         int   ril = (int)nextl();
         int   n   = (int)nextl();
         wr_img(w, n, pre, ed);
